@@ -123,7 +123,15 @@ def _pair_scenarios(chk: Check, cids: list[str], pins: set) -> list[dict]:
                 for sb in pinned[k2][:per]:
                     if _bound_names(sa.input) & _bound_names(sb.input):
                         continue  # the concatenation would re-bind a name: a shape codemods may decline
-                    for order, text in (("ab", sa.input.rstrip("\n") + "\n\n" + sb.input), ("ba", sb.input.rstrip("\n") + "\n\n" + sa.input)):
+                    from .. import variations
+
+                    (ha, ba), (hb, bb) = variations._split(sa.input), variations._split(sb.input)
+
+                    def join(h1, b1, h2, b2):
+                        # imports of both seeds first (an import in the middle of a file is a shape of its own), then the bodies
+                        return "\n".join(h1 + [x for x in h2 if x not in h1] + [""] + b1 + ["", ""] + b2) + "\n"
+
+                    for order, text in (("ab", join(ha, ba, hb, bb)), ("ba", join(hb, bb, ha, ba))):
                         if not pyoracle.compiles(text):
                             continue
                         rel = f"m{n:03d}.py"
